@@ -170,10 +170,14 @@ func VerifGenAbsentFormatted() {
 	vAssert(hasName, "a required member is not written")
 	_, hasSpan := generic["span"]
 	vAssert(hasSpan == withSpan, "an optional duration is added or lost")
+	_, hasMail := generic["mail"]
+	_, hasCount := generic["count"]
+	vAssert(!hasMail && !hasCount, "an absent optional string or integer member is added on encoding")
 	_, hasBorn := generic["born"]
 	_, hasAt := generic["at"]
-	if vKnown("C05-G16", hasBorn || hasAt) {
+	_, hasOid := generic["oid"]
+	if vKnown("C05-G16", hasBorn || hasAt || hasOid) {
 		return
 	}
-	vAssert(!hasBorn && !hasAt, "a member the document did not have is added on encoding")
+	vAssert(!hasBorn && !hasAt && !hasOid, "a member the document did not have is added on encoding")
 }
